@@ -377,3 +377,10 @@ def coq_eval_nested(header, term, timeout=600):
 def u_term(s):
     """Coq term (list N) for a python str given as code points"""
     return "[" + "; ".join(str(ord(ch)) for ch in s) + "]%N" if s else "([] : list N)"
+
+
+def coq_eval_nested_many(header, terms, workers=12):
+    """evaluate several terms (each a list-valued Coq term) in parallel coqc processes"""
+    from concurrent.futures import ThreadPoolExecutor
+    with ThreadPoolExecutor(max_workers=workers) as ex:
+        return list(ex.map(lambda t: coq_eval_nested(header, t), terms))
